@@ -57,13 +57,26 @@ def btcFromSats (s : Int) : Except PyErr (Nat × Int) := do
   let v ← Gen.Fee.valid_sats_amount s 0
   return normalize v.toNat (-Gen.Fee.BTC_DECIMALS)
 
-/-- `FeeRate.from_sats_per_vbyte`: exact ratio × 1000, refused when not whole; then FeeRate's guard -/
+/-- number of decimal digits of a non-zero coefficient (0 for 0; Python never asks: `rate and …`) -/
+def decDigitsAux : Nat → Nat → Nat
+  | 0, _ => 0
+  | fuel + 1, n => if n = 0 then 0 else 1 + decDigitsAux fuel (n / 10)
+def decDigits (n : Nat) : Nat := decDigitsAux n n
+
+/-- `Decimal.adjusted()`: the exponent of the most significant digit -/
+def adjusted (c : Nat) (e : Int) : Int := (decDigits c : Int) + e - 1
+
+/-- `FeeRate.from_sats_per_vbyte`: a non-zero quote whose leading digit sits above 10^15 sat/vB
+    (more than MAX_MONEY for one virtual byte) or below 10^-3 is refused *before* the ratio is taken
+    (no 10^huge is ever built); then exact ratio × 1000, refused when not whole; then FeeRate's guard -/
 def feeRateFromSatsPerVbyte (d : Dec) : Except PyErr Int :=
   match d with
   | .nan => .error .value
   | .inf _ => .error .value
   | .fin neg c e =>
-    match scaled 3 c e with
+    if c ≠ 0 ∧ adjusted c e > 15 then .error .value
+    else if c ≠ 0 ∧ adjusted c e < -3 then .error .value
+    else match scaled 3 c e with
     | none => .error .value                       -- finer than a millisatoshi per vbyte
     | some n => feeRate (if neg then -(n : Int) else n)
 
